@@ -57,10 +57,13 @@ ObsOK(i) ==
         /\ LET r == Cur.path[i]
            IN  IF stored THEN NoDup(r) /\ SeqToSet(r) = Entries(D!Ancestors(q)) ELSE r = <<>>
 
+\* NB: the checks are compared with TRUE so that TLC evaluates them as values; written as plain conjuncts
+\* of the action, every disjunction inside them would be split into separate (identical) successor states.
+ObsAllOK == /\ NoDup(Cur.all) /\ SeqToSet(Cur.all) = Entries(D!Stored)
+            /\ NoDup(Cur.vis) /\ SeqToSet(Cur.vis) = Entries(D!Stored)
+            /\ \A i \in 1..Len(qs) : ObsOK(i)
 TObs == /\ IsEvent("obs")
-        /\ NoDup(Cur.all) /\ SeqToSet(Cur.all) = Entries(D!Stored)
-        /\ NoDup(Cur.vis) /\ SeqToSet(Cur.vis) = Entries(D!Stored)
-        /\ \A i \in 1..Len(qs) : ObsOK(i)
+        /\ ObsAllOK = TRUE
         /\ UNCHANGED vars
 
 Found(r) == [ns |-> r.ns, nm |-> r.nm]
@@ -74,7 +77,7 @@ KObsOK(i) ==
                IN  IF m = {} THEN ~r.f ELSE r.f /\ Found(r) \in m
 
 TKObs == /\ IsEvent("kobs")
-         /\ \A i \in 1..Len(qs) : KObsOK(i)
+         /\ (\A i \in 1..Len(qs) : KObsOK(i)) = TRUE
          /\ UNCHANGED vars
 
 TNext == TReset \/ TUpd \/ TDel \/ TKIns \/ TKDel \/ TObs \/ TKObs
